@@ -17,6 +17,8 @@ RULE = ("instants 1950-2050 uniform plus solstices/equinoxes/year boundaries x l
         "scalars and arrays; correspondence: all ten sun quantities (ecliptic longitude, RA, dec, cos_zen, zenith, altitude, "
         "azimuth, distance, obliquity, mean anomaly) model vs astronomy.py at 1e-11; oracle: the Almanac low-precision sun "
         "(independent Python, own GMST) within 0.03 deg / 0.0015 AU, mutual consistency 1e-9, sub-solar point and antipode; "
+        "arrays: six unrelated instants, and clusters of six instants spanning 0 s ... 40 d in sorted / reversed / shuffled / "
+        "out-and-back order, with scalar, 1-d and 2-d coordinates, every element against the Almanac; "
         "distinct = (instant, lon, lat)")
 ASSUMPTIONS = ["Almanac low-precision formulas transcribed from memory (DESIGN appendix D); agreement measured 0.009 deg",
                "azimuth differences are weighted by cos(altitude) (azimuth is undefined at the zenith)",
@@ -197,6 +199,31 @@ def oracle(ctx):
         kind = ctx.rng.choice(["f64", "f64", "i64", "f32", "f64_2d", "scalar_coord"])
         ctx.bump("array_kind", kind)
         check_arrays(ctx, [c[0] for c in cases[k:k + 6]], [c[1] for c in cases[k:k + 6]], [c[2] for c in cases[k:k + 6]], kind, astronomy)
+    # time arrays that belong together (one image, one pass, one day): spans from identical instants to weeks, in sorted,
+    # reversed, shuffled and out-and-back (first == last) order
+    spans_s = [0.0, 1.0, 60.0, 540.0, 660.0, 3600.0, 3 * 3600.0, 3.9 * 3600.0, 4.1 * 3600.0, 12 * 3600.0, 2 * 86400.0, 40 * 86400.0]
+    for (t0, lon, lat) in gen(ctx, ctx.size(60, 1500)):
+        span = ctx.rng.choice(spans_s)
+        m = 6
+        offs = [span * i / (m - 1) for i in range(m)] if ctx.rng.random() < 0.5 else sorted(ctx.rng.uniform(0.0, span) for _ in range(m))
+        order = ctx.rng.choice(["sorted", "reversed", "shuffled", "out_and_back"])
+        if order == "reversed":
+            offs = offs[::-1]
+        elif order == "shuffled":
+            ctx.rng.shuffle(offs)
+        elif order == "out_and_back":
+            offs = [offs[0], offs[2], offs[5], offs[4], offs[1], offs[0]]
+        try:
+            ts = [t0 + dt.timedelta(seconds=o) for o in offs]
+        except OverflowError:
+            continue
+        if not all(dt.datetime(1950, 1, 1) <= t < dt.datetime(2050, 1, 1) for t in ts):
+            continue
+        kind = ctx.rng.choice(["scalar_coord", "f64", "f64_2d"])
+        ctx.bump("time_cluster", "%s/%gs" % (order, span))
+        lons = [lon] + [ctx.rng.uniform(-360.0, 360.0) for _ in range(m - 1)]
+        lats = [lat] + [ctx.rng.uniform(-90.0, 90.0) for _ in range(m - 1)]
+        check_arrays(ctx, ts, lons, lats, kind, astronomy)
 
 
 def _coords(kind, xs):
